@@ -58,7 +58,7 @@ def c03_layers(runs, kill_runs, power_runs, full_runs, budget):
             + [dict(runs=power_runs, budget_s=budget, params="mode=power")] * 2 + [dict(runs=full_runs, budget_s=budget, params="mode=diskfull")])
 q["layers"] = c03_layers(120, 64, 12, 24, 60)
 t["layers"] = c03_layers(6000, 3200, 600, 1200, 1200)
-q["require_probes"] = ["crash_exact", "probe_crash_between_approval_and_signing", "sign_seam_checks", "ack_durability_checks", "crash_real_process_kill", "crash_power_loss_images"]
+q["require_probes"] = ["crash_exact", "probe_crash_between_approval_and_signing", "sign_seam_checks", "ack_durability_checks", "crash_real_process_kill", "crash_power_loss_images", "released_lists_checked_pairwise"]
 t["require_probes"] = q["require_probes"] + ["crash_torn", "crash_after-write", "probe_crash_before_store", "probe_crash_between_store_and_approval", "sign_seam_image_checks"]
 plan("C03", "exploration",
      "one case = one seeded run: 1-4 phases of 1-5 concurrent conflict-seeking attestation/proposal requests (single and batched) under the seeded scheduler, "
@@ -66,7 +66,8 @@ plan("C03", "exploration",
      "and restart on the surviving directory image, plus clean restarts; distinct = distinct (history, schedule, crash placement) signature; non-trivial = "
      "at least one crash happened or one signature was released. Oracles: ledger across incarnations (no conflicting pair ever released), export after every "
      "restart covers every released signature, at the instant Sign is invoked the live store and (sampled) a fresh process opening the directory already "
-     "cover the duty, the directory as copied at the instant a storage call returns already holds what was acknowledged; layers 2 and 3 add real SIGKILLs at every storage point and power-loss images from a syscall trace.",
+     "cover the duty, the directory as copied at the instant a storage call returns already holds what was acknowledged; layers 2 and 3 add real SIGKILLs at every storage point (up to three incarnations in a row on one directory, periodic pruning drawn) and power-loss images from a syscall trace; "
+     "layer 4 lets the store run out of disk space (tmpfs with 0-28 KB left) under a workload of 120-360 requests.",
      q, t)
 
 BATCH_RULE = ("one case = one seeded run of 1-3 rounds, each a request of drawn kind and size (1-40 mostly, up to {big} entries over distinct keys of a 520-account wallet) "
